@@ -221,6 +221,10 @@ SCENARIOS = {
                     [("A", "B", "x", "in1", {"async_requests": True})], []),
     "async_agent_slow_plant": ({"A": {"type": "time-based", "step": 2}, "B": {"type": "time-based", "step": 1, "agent_of": "A"}},
                                [("A", "B", "x", "in1", {"async_requests": True})], []),
+    "mixed_attr": ({"A": {"type": "time-based", "step": 1}, "H": {"type": "hybrid", "step": 1}, "B": {"type": "time-based", "step": 1}},
+                   [("A", "B", "x", "in1", {}), ("H", "B", "ev", "in1", {})], []),
+    "double_trigger": ({"A": {"type": "hybrid", "step": 1}, "E": {"type": "event-based"}},
+                       [("A", "E", "ev", "in1", {}), ("A", "E", "ev", "in2", {"time_shifted": True})], []),
     "slow_producer_shifted": ({"A": {"type": "time-based", "step": 5}, "B": {"type": "time-based", "step": 1}},
                               [("A", "B", "x", "in1", {"time_shifted": True, "initial_data": {"x": 0}})], []),
 }
